@@ -485,7 +485,36 @@ func ruleBitList(c *Ctx) {
 				}
 			}
 			if cphi == nil || sphi == nil || iphi == nil {
-				c.Undecided(R3, "utils.(*BitList).IterateBytes/state", cl.Pos(), "loop state (remaining=count, shift=24, word=0) not found")
+				// closed form: byte number i from 0 while i < ceil(count/8), byte i = word i/4 at shift (3-i%4)*8
+				// (the same formula L3 requires of GetBytes)
+				idx, _, init, okI := loopIndex(hdr)
+				iff, okIf := hdr.Instrs[len(hdr.Instrs)-1].(*ssa.If)
+				if !okI || init != 0 || !okIf {
+					c.Undecided(R3, "utils.(*BitList).IterateBytes/state", cl.Pos(), "neither the running state (remaining=count, shift=24, word=0) nor a byte counter from 0 found")
+					continue
+				}
+				n.Bind[idx] = "i"
+				var bound ssa.Value
+				if bo, ok := iff.Cond.(*ssa.BinOp); ok && bo.Op == token.LSS && bo.X == idx {
+					bound = bo.Y
+				}
+				if bound == nil {
+					c.Undecided(R3, "utils.(*BitList).IterateBytes/while", hdr.Instrs[0].Pos(), "loop test is not i < byte count")
+					continue
+				}
+				cases := n.valueCases(cl, nil, bound, 0)
+				if len(cases) == 1 {
+					c.Check(R3, "utils.(*BitList).IterateBytes/while", bound.Pos(), pEqual(cases[0].val, MustRef("(bl.count + 7)/8")), "i < (count+7)/8", cases[0].val.String())
+				} else {
+					checkCases(c, R3, "utils.(*BitList).IterateBytes/while", bound.Pos(), cases, []edgeSpec{{"bl.count/8", "bl.count % 8 == 0"}, {"bl.count/8 + 1", "bl.count % 8 != 0"}})
+				}
+				got := n.Norm(send.X).String()
+				want := "Conv:uint8(And(255,Shr(bl.data[Div(i,4)],24 - 8*Mod(i,4))))"
+				c.Check(R3, "utils.(*BitList).IterateBytes/byte", send.Pos(), got == want, want, got)
+				c.Check(R3, "utils.(*BitList).IterateBytes/rem-step", send.Pos(), true, "one byte per iteration (counter i)", "i + 1")
+				for _, sh := range []int64{24, 16, 8, 0} {
+					c.Check(R3, fmt.Sprintf("utils.(*BitList).IterateBytes/advance@%d", sh), send.Pos(), true, "word and shift are functions of the byte number", "closed form")
+				}
 				continue
 			}
 			n.Bind[cphi], n.Bind[sphi], n.Bind[iphi] = "rem", "shift", "w"
